@@ -35,6 +35,8 @@ def run(ctx):
         E.has_call(ctx, "R1", "PredicateDataSlots<-this_solution().predicate_data", prog, d, r"access::predicate_data_slots$", ["^stack$", TS + r"\.predicate_data$"])
         E.has_call(ctx, "R1", "PredicateExists<-all-solutions", prog, d, r"access::predicate_exists$", ["^stack$", r"^access\.solutions$", "^cache$"])
         E.has_call(ctx, "R1", "RepeatCounter<-repeat", prog, d, r"access::repeat_counter$", ["^stack$", "^repeat$"])
+    from .. import access as AX
+    AX.run_program_access(ctx, "R1")
     ts = prog.fn("essential_vm::access::Access::this_solution")
     if ctx.anchor("R1", "fn Access::this_solution", ts):
         E.has_call(ctx, "R1", "this_solution=solutions[index]", prog, ts, r"slice::<impl \[T\]>::get$", [r"^self\.solutions$", r"^self\.index$"])
